@@ -39,7 +39,10 @@ OIDS = sorted(WORK)
 # environment actions: (kind, object index)
 ACTIONS = [("place-protected", i) for i in range(len(OIDS))] + [("place-unprotected", i) for i in range(len(OIDS))] + \
           [("mkdir", i) for i in range(len(OIDS))] + [("state-row", i) for i in range(len(OIDS))] + \
-          [("probe-create", i) for i in range(len(OIDS))] + [("probe-finish", i) for i in range(len(OIDS))]
+          [("probe-create", i) for i in range(len(OIDS))] + [("probe-finish", i) for i in range(len(OIDS))] + \
+          [("probe-wipe", i) for i in range(len(OIDS))]
+# probe-wipe: the other writer decided to add object i before this writer placed it; its in-place probe (O_TRUNC, then unlink) therefore
+# truncates and removes whatever is under the final name at that moment - the object is *missing* until its probe-finish
 # probe-create / probe-finish: the two halves of another writer's add of object i as dvc_objects performs it - an in-place reflink
 # probe leaves an *empty* file under the final name for a moment, then removes it and places the complete object by rename
 
@@ -61,6 +64,9 @@ def _apply(env, cache, st, action):
         if not inner.lexists(path):
             inner.write(path, b"x")  # never empty-equal to a real empty object: the probe leaves size 0
             inner.files[inner._resolve(path)].data = b""
+    elif kind == "probe-wipe":
+        if inner.lexists(path) and not inner.isdir(path):
+            inner._p_unlink(path)
     elif kind == "probe-finish":
         inner.makedirs(path.rsplit("/", 1)[0], exist_ok=True)
         if inner.lexists(path) and inner.read(path) == b"" and WORK[oid] != b"":
@@ -100,6 +106,9 @@ def _run(env, plan):
         transfer(staging, cache, {obj.hash_info}, shallow=False)
     finally:
         env.inner.pre_mutation = None
+    # the other writers run to completion too: steps scheduled after this writer's last mutation happen now
+    while pending:
+        _apply(env, cache, st, pending.pop(0)[1])
     return cache, obj, count[0], st
 
 
@@ -114,7 +123,7 @@ def reference():
 
 def h_interfere(e1: int, a1: int, e2: int, a2: int) -> bool:
     """
-    pre: -1 <= e1 <= 60 and -1 <= e2 <= 60 and 0 <= a1 <= 17 and 0 <= a2 <= 17
+    pre: -1 <= e1 <= 60 and -1 <= e2 <= 60 and 0 <= a1 <= 20 and 0 <= a2 <= 20
     post: _
     """
     with NoTracing():
@@ -123,15 +132,17 @@ def h_interfere(e1: int, a1: int, e2: int, a2: int) -> bool:
     lo1 = int(cube("e_lo", -1))
     hi1 = max(lo1, min(int(cube("e_hi", n)), n))
     k1 = pick(e1, lo1, hi1)
-    act1 = int(cube("a1")) if cube("a1", None) is not None else pick(a1, 0, len(ACTIONS) - 1)
-    plan.append((k1, ACTIONS[act1]))
     if cube("probe", None) is not None:  # paired: the other writer's probe opens at k1 and its add completes at k2 >= k1
         i = int(cube("probe"))
-        plan = [(k1, ("probe-create", i)), (pick(e2, k1, n), ("probe-finish", i))]
-    elif NSTEPS >= 2:
-        k2 = pick(e2, k1, n)
-        act2 = int(cube("a2")) if cube("a2", None) is not None else pick(a2, 0, len(ACTIONS) - 1)
-        plan.append((k2, ACTIONS[act2]))
+        first = "probe-wipe" if cube("wipe", False) else "probe-create"
+        plan = [(k1, (first, i)), (pick(e2, k1, min(n, k1 + int(cube("span", 99)))), ("probe-finish", i))]
+    else:
+        act1 = int(cube("a1")) if cube("a1", None) is not None else pick(a1, 0, len(ACTIONS) - 1)
+        plan.append((k1, ACTIONS[act1]))
+        if NSTEPS >= 2:
+            k2 = pick(e2, k1, n)
+            act2 = int(cube("a2")) if cube("a2", None) is not None else pick(a2, 0, len(ACTIONS) - 1)
+            plan.append((k2, ACTIONS[act2]))
     env = make_env()
     try:
         try:
